@@ -389,6 +389,15 @@ impl Prop for C03 {
     fn floors(&self) -> Vec<(&'static str, f64)> {
         vec![("collected", 0.8), ("multi_chunk", 0.15), ("def", 0.25)]
     }
+    fn render(&self, _ctx: &mut Ctx, ch: &mut Choices) -> String {
+        let opts = prog::Opts { profile: prog::Profile::Full, max_stmts: 40, fail_pct: 15, ..Default::default() };
+        let body = {
+            let mut g = prog::Gen::new(ch, opts);
+            prog::render_plain(&g.program())
+        };
+        let (graph, _) = gen_graph(ch);
+        if ch.chance(1, 4) { format!("{PRELUDE}{graph}{EPILOGUE}") } else if ch.bool() { format!("{PRELUDE}{graph}{body}{EPILOGUE}") } else { format!("{PRELUDE}{body}{graph}{EPILOGUE}") }
+    }
     fn run(&self, _ctx: &mut Ctx, ch: &mut Choices) -> CaseResult {
         let opts = prog::Opts { profile: prog::Profile::Full, max_stmts: 40, fail_pct: 15, ..Default::default() };
         let mut g = prog::Gen::new(ch, opts);
